@@ -41,9 +41,13 @@ def gen_case(rng, reentrant, maxops):
     ops = []
     nh = 0
     alive = [True] * nsubj
-    # start with a few subscriptions so that handles exist
-    for _ in range(rng.range(1, 4)):
-        ops.append([0, rng.below(nsubj), rng.below(nscr + 1)]); nh += 1
+    # start with a few subscriptions so that handles exist; one case in twelve starts with a crowd on one Subject (delivery order,
+    # snapshot sizes and id bookkeeping beyond small fixed-size buffers)
+    crowd = (not reentrant) and rng.chance(1, 12)     # (re-entrant scripts on a crowd would nest notifies exponentially)
+    for _ in range(rng.range(17, 40) if crowd else rng.range(1, 4)):
+        ops.append([0, 0 if crowd else rng.below(nsubj), rng.below(nscr + 1)]); nh += 1
+    if crowd:
+        ops.append([6, 0, rng.range(1, 99)])
     for _ in range(rng.range(1, maxops)):
         k = rng.weighted([("act", 12), ("subj_unsub", 3), ("move", 2)])
         if k == "act":
